@@ -549,7 +549,7 @@ func symEquals(t types.Type, x, y value) value {
 		if xv.t == nil {
 			return true
 		}
-		if !types.Comparable(xv.t) {
+		if xv.t != rtypeType && xv.t != errorType && !types.Comparable(xv.t) {
 			panic(rtPanic("runtime error: comparing uncomparable type " + typeName(xv.t)))
 		}
 		return symEquals(xv.t, xv.v, yv.v)
